@@ -187,6 +187,10 @@ Proof.
   rewrite (lex_text_render u _ (toks_ok_print e Hwf Hlx)). apply parse_toks_print. exact Hwf.
 Qed.
 
+Theorem same_evaluation (A : Type) (eval : expr -> A) u e : wf_expr e -> lexable e = true ->
+  option_map eval (parse_text u (print_src e)) = Some (eval e).
+Proof. intros Hwf Hlx. rewrite (parse_text_print u e Hwf Hlx). reflexivity. Qed.
+
 Theorem lex_text_print u e : wf_expr e -> lexable e = true -> lex_text u (print_src e) = Some (t_expr e).
 Proof. intros Hwf Hlx. rewrite print_src_render. apply lex_text_render, toks_ok_print; assumption. Qed.
 
@@ -203,3 +207,7 @@ Lemma trailing_backslash_witness :
   parse_text ascii_only tb_text = Some tb_expr /\ wf_expr tb_expr /\ lexable tb_expr = false /\
   parse_text ascii_only (print_src tb_expr) = None.
 Proof. vm_compute. repeat split; reflexivity. Qed.
+
+Lemma trailing_backslash_exists : exists s e,
+  parse_text ascii_only s = Some e /\ wf_expr e /\ lexable e = false /\ parse_text ascii_only (print_src e) = None.
+Proof. exists tb_text, tb_expr. exact trailing_backslash_witness. Qed.
